@@ -121,6 +121,33 @@ func vfGroupLogRun(t testing.TB, w *vfRWorld, sc vfScript) []map[string]any {
 		}
 		groups = append(groups, mg)
 	}
+	// every enqueue / incoming request carries its own seed and (every second one) its own metadata,
+	// named s<i> / m<i> after the step that sent them ("-" = none)
+	seedNames := map[string]string{}
+	metaNames := map[string]string{}
+	opSeed := func(i int) []byte {
+		b := make([]byte, 32)
+		crand.Read(b)
+		seedNames[string(b)] = fmt.Sprintf("s%d", i)
+		return b
+	}
+	opMeta := func(i int) []byte {
+		if i%2 == 1 {
+			return nil
+		}
+		b := []byte(fmt.Sprintf("meta-of-step-%d-%d", sc.ID, i))
+		metaNames[string(b)] = fmt.Sprintf("m%d", i)
+		return b
+	}
+	nameOr := func(m map[string]string, b []byte) string {
+		if len(b) == 0 {
+			return "-"
+		}
+		if v, ok := m[string(b)]; ok {
+			return v
+		}
+		return "?"
+	}
 	names := map[string]int{} // entry hash -> creation index
 	byName := map[int]ipfslog.Entry{}
 	seeds := map[string]int{} // rendezvous seed (hex) -> entry that set it
@@ -166,6 +193,8 @@ func vfGroupLogRun(t testing.TB, w *vfRWorld, sc vfScript) []map[string]any {
 			}
 		}
 		cs := map[string]any{}
+		cseed := map[string]any{}
+		cmeta := map[string]any{}
 		lc := m.ListContacts()
 		for i, c := range contacts {
 			st := "U"
@@ -184,6 +213,13 @@ func vfGroupLogRun(t testing.TB, w *vfRWorld, sc vfScript) []map[string]any {
 				}
 			}
 			cs[fmt.Sprintf("c%d", i+1)] = st
+			if ac, ok := lc[string(c.raw)]; ok && ac.contact != nil {
+				cseed[fmt.Sprintf("c%d", i+1)] = nameOr(seedNames, ac.contact.PublicRendezvousSeed)
+				cmeta[fmt.Sprintf("c%d", i+1)] = nameOr(metaNames, ac.contact.Metadata)
+			} else {
+				cseed[fmt.Sprintf("c%d", i+1)] = "-"
+				cmeta[fmt.Sprintf("c%d", i+1)] = "-"
+			}
 		}
 		gj := map[string]any{}
 		joined := m.ListMultiMemberGroups()
@@ -196,8 +232,8 @@ func vfGroupLogRun(t testing.TB, w *vfRWorld, sc vfScript) []map[string]any {
 			}
 			gj[fmt.Sprintf("g%d", i+1)] = v
 		}
-		view, _ := json.Marshal([]any{sw, seed, cs, gj})
-		return map[string]any{"set": nameSet(d), "sw": sw, "en": en, "seed": seed, "cs": cs, "gj": gj, "view": string(view)}
+		view, _ := json.Marshal([]any{sw, seed, cs, gj, cseed, cmeta})
+		return map[string]any{"set": nameSet(d), "sw": sw, "en": en, "seed": seed, "cs": cs, "gj": gj, "cseed": cseed, "cmeta": cmeta, "view": string(view)}
 	}
 	out := []map[string]any{{"ev": "reset", "id": sc.ID}}
 	for i, st := range sc.Steps {
@@ -223,17 +259,24 @@ func vfGroupLogRun(t testing.TB, w *vfRWorld, sc vfScript) []map[string]any {
 				op, err = m.ContactRequestReferenceReset(ctx)
 			case "enq":
 				c := contacts[st.X-1]
-				op, err = m.ContactRequestOutgoingEnqueue(ctx, &protocoltypes.ShareableContact{Pk: c.raw, PublicRendezvousSeed: c.seed, Metadata: c.meta}, []byte("own"))
+				sd, mt := opSeed(i), opMeta(i)
+				ev["cseed"], ev["cmeta"] = nameOr(seedNames, sd), nameOr(metaNames, mt)
+				op, err = m.ContactRequestOutgoingEnqueue(ctx, &protocoltypes.ShareableContact{Pk: c.raw, PublicRendezvousSeed: sd, Metadata: mt}, []byte("own"))
 			case "enq!noseed", "enq!shortseed", "enq!badkey", "enq!self", "recv!self", "recv!shortseed", "recv!noseed", "blk!self":
 				// malformed / own-account variants (C07): same calls, doctored arguments
 				c := contacts[st.X-1]
-				sh := &protocoltypes.ShareableContact{Pk: c.raw, PublicRendezvousSeed: c.seed, Metadata: c.meta}
+				sd, mt := opSeed(i), opMeta(i)
+				sh := &protocoltypes.ShareableContact{Pk: c.raw, PublicRendezvousSeed: sd, Metadata: mt}
+				ev["cseed"], ev["cmeta"] = nameOr(seedNames, sd), nameOr(metaNames, mt)
+				if st.S == "recv!noseed" {
+					ev["cseed"] = "-"
+				}
 				own := vfRawPK(m.memberDevice.Member())
 				switch st.S[4:] {
 				case "noseed", "!noseed":
 					sh.PublicRendezvousSeed = nil
 				case "shortseed", "!shortseed":
-					sh.PublicRendezvousSeed = c.seed[:16]
+					sh.PublicRendezvousSeed = sd[:16]
 				case "badkey":
 					sh.Pk = c.raw[:16]
 				case "self", "!self":
@@ -251,7 +294,9 @@ func vfGroupLogRun(t testing.TB, w *vfRWorld, sc vfScript) []map[string]any {
 				op, err = m.ContactRequestOutgoingSent(ctx, contacts[st.X-1].pk)
 			case "recv":
 				c := contacts[st.X-1]
-				op, err = m.ContactRequestIncomingReceived(ctx, &protocoltypes.ShareableContact{Pk: c.raw, PublicRendezvousSeed: c.seed, Metadata: c.meta})
+				sd, mt := opSeed(i), opMeta(i)
+				ev["cseed"], ev["cmeta"] = nameOr(seedNames, sd), nameOr(metaNames, mt)
+				op, err = m.ContactRequestIncomingReceived(ctx, &protocoltypes.ShareableContact{Pk: c.raw, PublicRendezvousSeed: sd, Metadata: mt})
 			case "disc":
 				op, err = m.ContactRequestIncomingDiscard(ctx, contacts[st.X-1].pk)
 			case "acc":
